@@ -29,7 +29,7 @@ LEVEL_NOTE = ('Partial: np.fft.fft2/fftshift/ifftshift and np.round/np.min/np.ma
               'oversample is exercised by the oracle only (known finding KF-C09-float-oversample-explicit-shape); anisotropic dx·du whose per-axis wavelengths DIFFER is excluded by '
               'hypothesis (KF-C09-fft-anisotropic-wavelength; consistent per-axis grids are covered). Trusted: Lean kernel, py2lean subset semantics, generator coverage.')
 TECHNIQUE = 'Lean 4 proof (finite-sum reindexing, omega) over hand model with differential correspondence at Float'
-GEN = ['Extent', 'FieldIdx', 'FftScratch', 'PropagateMeta', 'Util', 'Window']
+GEN = ['Extent', 'FieldIdx', 'FftScratch', 'PropagateMeta', 'Util', 'Window', 'FieldMerge', 'FieldDispatch', 'FieldAccum']
 OPS = ['C02', 'C09']
 RULE = ('cases: pupils 1..6 x 1..6 (even/odd/non-square, off-centre, segmented) no larger than the grid; FFT grids 2..12 of both '
         'parities chosen through du (1/alpha within +-0.35 of the target, incl. non-integer); oversample 1..4; shape None/int/pair '
